@@ -492,6 +492,12 @@ def lazy_misuse(fn):
         elif isinstance(n, ast.Call) and isinstance(n.func, ast.Name) and n.func.id in ("len", "bool") and len(n.args) == 1 \
                 and _is_lazy(n.args[0], lazy_names):
             out.append((n, f"`{ast.unparse(n)[:50]}`"))
+        elif isinstance(n, ast.Call) and n.args and _is_lazy(n.args[0], lazy_names):
+            d = dotted(n.func) or ""
+            # numpy does not iterate an iterator: numpy.array(map(...)) is a 0-d object array
+            if (d.startswith("numpy.") or d.startswith("np.")) and d.split(".")[-1] not in ("fromiter",) or \
+                    d.split(".")[-1] in ("integer_ndarray", "boolean_ndarray", "variable_ndarray", "ge_polyhedron", "ge_polyhedron_config"):
+                out.append((n, f"`{ast.unparse(n)[:60]}` hands an iterator to numpy"))
     return out
 
 
